@@ -215,7 +215,17 @@ func (r *wsRun) expect(env *gen.Env, cfg runCfg) ([]e2e.Line, error) {
 			}
 		}
 	})
-	return out, err
+	// every front-end prints a (file, line, column, checker, message) tuple once per run, also when a
+	// checker produced it twice (C08)
+	seen := map[string]bool{}
+	uniq := out[:0]
+	for _, l := range out {
+		if !seen[l.Key()] {
+			seen[l.Key()] = true
+			uniq = append(uniq, l)
+		}
+	}
+	return uniq, err
 }
 
 // paramArgs renders parameters as -@checker.param=value flags (same in both dialects).
